@@ -51,13 +51,27 @@ type store struct {
 }
 
 func openStore() (*store, error) {
-	root, err := os.MkdirTemp("", "verif-c38-")
+	// shard directories are fsync-heavy (series file, tsi1, WAL): prefer a tmpfs
+	base := ""
+	if os.Getenv("TMPDIR") == "" {
+		if fi, err := os.Stat("/dev/shm"); err == nil && fi.IsDir() {
+			base = "/dev/shm"
+		}
+	}
+	root, err := os.MkdirTemp(base, "verif-c38-")
+	if err != nil && base != "" {
+		root, err = os.MkdirTemp("", "verif-c38-")
+	}
 	if err != nil {
 		return nil, err
 	}
 	s := tsdb.NewStore(filepath.Join(root, "data"))
 	s.EngineOptions.Config.WALDir = filepath.Join(root, "wal")
 	s.EngineOptions.CompactionDisabled = true
+	// Engine.DeleteSeriesRange ends with enableLevelCompactions(true), which STARTS the
+	// background compaction loop even on a shard opened with compactions disabled.
+	// A planner that never plans keeps the file set a function of the op sequence.
+	s.EngineOptions.CompactionPlannerCreator = func(tsdb.Config) interface{} { return &nullPlanner{} }
 	s.EngineOptions.MonitorDisabled = true
 	s.EngineOptions.MetricsDisabled = true
 	if err := s.Open(context.Background()); err != nil {
@@ -71,6 +85,26 @@ func openStore() (*store, error) {
 	}
 	return &store{root: root, st: s}, nil
 }
+
+// nullPlanner never schedules a background compaction.
+type nullPlanner struct{}
+
+func (*nullPlanner) FindGenerations() tsm1.TsmGenerations { return nil }
+func (*nullPlanner) Plan(tsm1.TsmGenerations, time.Time) ([]tsm1.CompactionGroup, int64) {
+	return nil, 0
+}
+func (*nullPlanner) PlanLevel(tsm1.TsmGenerations, int) ([]tsm1.CompactionGroup, int64) {
+	return nil, 0
+}
+func (*nullPlanner) PlanOptimize(tsm1.TsmGenerations, time.Time) ([]tsm1.CompactionGroup, int64, int64) {
+	return nil, 0, 0
+}
+func (*nullPlanner) Release([]tsm1.CompactionGroup)             {}
+func (*nullPlanner) FullyCompacted() (bool, string)             { return true, "" }
+func (*nullPlanner) ForceFull()                                 {}
+func (*nullPlanner) SetFileStore(*tsm1.FileStore)               {}
+func (*nullPlanner) SetAggressiveCompactionPointsPerBlock(int)  {}
+func (*nullPlanner) GetAggressiveCompactionPointsPerBlock() int { return 0 }
 
 func (s *store) close() {
 	if s == nil {
@@ -417,7 +451,7 @@ func (r *runner) Op(t []string) string {
 		}
 		return "ok"
 	case "backup":
-		if len(t) != 3 {
+		if len(t) != 3 || strings.Contains(t[1], ",") {
 			return "bad-op"
 		}
 		var since time.Time
@@ -433,7 +467,10 @@ func (r *runner) Op(t []string) string {
 		// the listing is taken after the backup (Backup itself snapshots the cache first)
 		return "arch=" + archiveNames(buf.Bytes()) + " files=" + listFiles(r.src.shardDir()) + " blocks=" + r.blocks() + " " + r.src.dump()
 	case "export":
-		if len(t) != 4 {
+		if len(t) != 4 || strings.Contains(t[1], ",") {
+			return "bad-op"
+		}
+		if h.Atoi(t[2]) > h.Atoi(t[3]) {
 			return "bad-op"
 		}
 		var buf bytes.Buffer
@@ -508,15 +545,16 @@ func listNames(dir string) string {
 // each followed by restores / imports into fresh shards.
 //
 // Kinds:
-//   small  : few points per series from a 0..40 time domain, overlapping
-//            rewrites, deletes, compactions, incremental chains;
-//   export : histories WITHOUT deletes hitting files (Export fails on any
-//            tombstone), export ranges around block and file bounds;
-//   big    : one or two series with > 1000 points (several blocks per key and
-//            file), no compaction (block bounds after compaction are C04's
-//            business), exports straddling block bounds.
+//
+//	small  : few points per series from a 0..40 time domain, overlapping
+//	         rewrites, deletes, compactions, incremental chains;
+//	export : histories WITHOUT deletes hitting files (Export fails on any
+//	         tombstone), export ranges around block and file bounds;
+//	big    : one or two series with > 1000 points (several blocks per key and
+//	         file), no compaction (block bounds after compaction are C04's
+//	         business), exports straddling block bounds.
 func gen(r *h.Rand, tier string, emit func([]string)) {
-	n := 260
+	n := 130
 	if tier == "thorough" {
 		n = 3000
 	}
